@@ -12,6 +12,7 @@ import (
 	"runtime/debug"
 	"sort"
 	"strconv"
+	"strings"
 	"time"
 )
 
@@ -35,6 +36,7 @@ func main() {
 	replay := flag.String("replay", "", "re-evaluate the obligation recorded in this replay file")
 	selftest := flag.Bool("selftest", false, "run the sensitivity corpus for -p (thorough tier does this itself)")
 	list := flag.Bool("list", false, "list properties and rules")
+	finv := flag.Bool("fieldinventory", false, "print the inventory of unexported struct fields of -repo (the frozen copy is checker/fields.txt)")
 	inv := flag.Bool("inventory", false, "print the function inventory of -repo (the frozen copy is checker/inventory.txt)")
 	flag.Parse()
 
@@ -64,6 +66,33 @@ func main() {
 		}
 		return
 	}
+	if *finv {
+		c, err := load(loadOpts{Dir: *repo, NoNormalise: true})
+		if err != nil {
+			fmt.Printf("BROKEN: %v\n", err)
+			os.Exit(2)
+		}
+		var lines []string
+		for _, p := range c.Pkgs {
+			if strings.Contains(p.PkgPath, "/internal/db/") {
+				continue
+			}
+			for _, f := range p.Syntax {
+				structFields(relOf(p.PkgPath), f, func(key, typ string, id *ast.Ident, ts *ast.TypeSpec) {
+					lines = append(lines, key+"\t"+typ)
+				})
+				structTypes(relOf(p.PkgPath), f, func(key string, ts *ast.TypeSpec) {
+					lines = append(lines, key+"\tstruct")
+				})
+			}
+		}
+		sort.Strings(lines)
+		fmt.Println("# unexported struct fields of the tree the rules were confirmed on (pkg Type.field, type); see normalise.go")
+		for _, l := range lines {
+			fmt.Println(l)
+		}
+		return
+	}
 	if *inv {
 		c, err := load(loadOpts{Dir: *repo, NoNormalise: true})
 		if err != nil {
@@ -75,7 +104,7 @@ func main() {
 			for _, f := range p.Syntax {
 				for _, d := range f.Decls {
 					if fd, ok := d.(*ast.FuncDecl); ok {
-						lines = append(lines, inventoryKey(p.PkgPath, fd))
+						lines = append(lines, inventoryKey(p.PkgPath, fd)+"\t"+sigKey(fd)+"\t"+paramNamesKey(fd))
 					}
 				}
 			}
